@@ -239,3 +239,36 @@ PROPS["C12"] = {
                   T("TestC12Socks", {"checks": 4, "shards": 4}, {"checks": 30, "shards": 8})],
     }],
 }
+
+PROPS["C09"] = {
+    "level": "fault_enumeration",
+    "exhaustive_when_all": True,
+    "exhaustive_tests": ["TestC09AllReplies"],
+    "assumptions": ["loopback TCP (127.0.0.0/8) stands for the network; pauses between reply segments are <= a quarter of the data timeout, stalls are forever - nothing is placed near a deadline",
+                    "delivery of 05 00 is certain only when the server read the greeting first and does not reset; otherwise a record is allowed but not demanded",
+                    "time bound checked: connect + 3 x data timeout + 3 s slack; after cancel: 3 s"],
+    "max_parallel": 8,
+    "units": [{
+        "pkg": "pkg/scan/socks5",
+        "tests": [T("TestC09Scripts", {"checks": 120, "shards": 8}, {"checks": 1500, "shards": 16}),
+                  T("TestC09AllReplies", {"checks": 1}, {"checks": 1, "env": {"C09_ALL": 1}, "timeout": 3000})],
+    }, {
+        "pkg": "command",
+        "tests": [T("TestC09Command", {"checks": 12, "shards": 2}, {"checks": 60, "shards": 4})],
+    }],
+}
+
+PROPS["C10"] = {
+    "level": "fault_enumeration",
+    "exhaustive_when_all": False,
+    "assumptions": ["loopback HTTP/HTTPS scripted at socket level stands for the network; stalls are forever, nothing is placed near a deadline",
+                    "reference for 'JSON object': encoding/json into interface{}; trailing bytes after a complete object are a don't-care and are not generated",
+                    "redirects, 1xx, 204, 304 are not generated; docker with a literal null /info body is a known finding excluded by construction"],
+    "max_parallel": 8,
+    "units": [{
+        "pkg": "command",
+        "tests": [T("TestC10Probes", {"checks": 60, "shards": 8}, {"checks": 800, "shards": 16}),
+                  T("TestC10Command", {"checks": 16, "shards": 2}, {"checks": 100, "shards": 4}),
+                  T("TestC10KnownDockerNull", {"checks": 1})],
+    }],
+}
